@@ -78,3 +78,11 @@ package sql
 //@   invariant#1 forall j int :: 0 <= j && j < rows_n[rows] ==> disk_has[rowID(rows, j)]
 //@   invariant#1 forall k string :: disk_has[k] ==> 0 <= rowIdx(rows, k) && rowIdx(rows, k) < rows_n[rows] && rowID(rows, rowIdx(rows, k)) == k
 //@   decreases#1 rows_n[rows] - rows_pos[rows] + (rows_fail[rows] ? 0 : 1)
+
+// Init issues exactly one statement outside a transaction: the known CREATE TABLE (no PRAGMA or other statement whose
+// effect the assumed database model does not describe), and passes its error on.
+//@ func (*sqlLogPersistence).Init
+//@   returns (err)
+//@   requires p != nil && p.db != nil
+//@   modifies n_dbexec, dbexec_q, disk_has, disk_val
+//@   ensures[C06.init] n_dbexec == old(n_dbexec) + 1 && dbexec_q == "CREATE TABLE IF NOT EXISTS chkpts (\n\t\tlogID BLOB PRIMARY KEY,\n\t\tchkpt BLOB,\n\t\trange BLOB\n\t\t)"
